@@ -17,7 +17,7 @@ _bd = os.environ.get('VERIF_BUILD_DIR')
 if _bd:
     assert optree.__file__.startswith(_bd) and optree._C.__file__.startswith(_bd), (optree.__file__, optree._C.__file__, _bd)
 
-KINT, KSTR, KFLT, KORD, KUNORD = 0, 1, 2, 3, 4
+KINT, KSTR, KFLT, KORD, KUNORD, KNEST = 0, 1, 2, 3, 4, 5
 NCUSTOM, NLEAF, NNONE, NTUPLE, NLIST, NDICT, NNT, NODICT, NDDICT, NDEQUE, NSS = range(11)
 KIND_NAME = {NCUSTOM: 'custom', NLEAF: 'leaf', NNONE: 'none', NTUPLE: 'tuple', NLIST: 'list', NDICT: 'dict',
              NNT: 'nt', NODICT: 'odict', NDDICT: 'ddict', NDEQUE: 'deque', NSS: 'ss'}
@@ -92,6 +92,32 @@ class KUnord:
         return f'KUnord({self.v})'
 
 
+class Wrap:
+    class AOrd:
+        """orderable key class that is NESTED: __qualname__ 'Wrap.AOrd' sorts after 'KOrd'/'KUnord', __name__ 'AOrd' before them"""
+        __slots__ = ('v',)
+
+        def __init__(self, v):
+            self.v = v
+
+        def __eq__(self, o):
+            return type(o) is Wrap.AOrd and o.v == self.v
+
+        def __hash__(self):
+            return hash(('AOrd', self.v))
+
+        def __lt__(self, o):
+            if type(o) is not Wrap.AOrd:
+                return NotImplemented
+            return self.v < o.v
+
+        def __repr__(self):
+            return f'AOrd({self.v})'
+
+
+Wrap.AOrd.__module__ = 'vuniv'
+
+
 class KHook:
     """key whose __lt__ / __hash__ / __eq__ are observable callbacks (fault and scheduling scenarios only)"""
     __slots__ = ('v',)
@@ -158,6 +184,8 @@ def mk_key(k):
         return KOrd(v)
     if ty == KUNORD:
         return KUnord(v)
+    if ty == KNEST:
+        return Wrap.AOrd(v)
     raise ValueError(k)
 
 
@@ -175,6 +203,8 @@ def proj_key(o):
         return [KORD, o.v]
     if t is KUnord:
         return [KUNORD, o.v]
+    if t is Wrap.AOrd:
+        return [KNEST, o.v]
     raise ValueError(f'key outside the universe: {o!r}')
 
 
@@ -214,6 +244,8 @@ class _CustomBase:
             return (tuple(self.children), mk_meta(self.meta), 12345)
         if self.fault == 'entlen':
             return (tuple(self.children), mk_meta(self.meta), tuple(range(len(self.children) + 1)))
+        if self.fault == 'entshort':      # fewer entries than children
+            return (tuple(self.children), mk_meta(self.meta), tuple(range(max(len(self.children) - 1, 0))))
         if self.HASENT:
             return (tuple(self.children), mk_meta(self.meta), tuple(mk_key(e) for e in self.ent))
         return (tuple(self.children), mk_meta(self.meta))
